@@ -749,8 +749,13 @@ def discharge(ob, ctx, c, timeout_ms, witnesses=None):
     try:
         conc = {k: concretize_value(model, v) for k, v in ctx.param_env.items()}
         cex['input'] = {k: _jsonable(v) for k, v in conc.items()}
-        rep = replay_native(c, conc)
-        cex.update(rep)
+        if c.native_skip:
+            # contract over abstract (ghost) state: its clauses cannot be evaluated on real objects, so nothing is replayed
+            cex['confirmed'] = False
+            cex['note'] = 'contract over abstract state (ghost fields): the counterexample is the solver\'s, not replayed natively'
+        else:
+            rep = replay_native(c, conc)
+            cex.update(rep)
     except Exception as e:
         cex['replay_error'] = '%s: %s' % (type(e).__name__, e)
         cex['confirmed'] = False
